@@ -267,5 +267,10 @@ def step(root, scratch, src_model, lab, dst_model, src_ans, seed=0, who=None, op
             res["viol"].append((SITE[q], f"changed-by:{act}", q, "args=" + ",".join(map(str, args[:1])),
                                 f"query {q}[{key}]: before {va!r} after {vb!r} (both without acceleration data)"))
     for site, clause, detail in low:
-        res["viol"].append((site, clause, "bitmap", cls.get("bmp", "?"), detail))
+        if clause == "BitmapDecode":
+            # latent: no query consults a bitmap read from disk today (BitmapReachability looks entries up by hex
+            # id, read_bitmap_file keys them by binary id), so no answer changes; recorded, not a violation
+            res.setdefault("info", []).append(f"{site}: {detail}")
+        else:
+            res["viol"].append((site, clause, "bitmap", "bmp:" + cls.get("bmp", "?"), detail))
     return res
